@@ -21,6 +21,45 @@ class Inode:
         self.mode = 0o600
 
 
+class SimFile:
+    """What os.fdopen(fd, 'w') returns: buffered - nothing reaches the file before flush() / close()."""
+
+    def __init__(self, fs, fd):
+        self.fs, self.fd = fs, fd
+        self.buf = b""
+        self.closed = False
+
+    def write(self, data):
+        if isinstance(data, str):
+            data = data.encode("utf-8")
+        self.buf += data
+        return len(data)
+
+    def flush(self):
+        if self.buf:
+            self.fs._call("write", self.fd, self.buf)
+            self.fs.fds[self.fd].data += self.buf
+            self.buf = b""
+
+    def close(self):
+        if self.closed:
+            return
+        self.flush()
+        self.fs._call("close", self.fd)
+        del self.fs.fds[self.fd]
+        self.closed = True
+
+    def fileno(self):
+        return self.fd
+
+    def __enter__(self):
+        return self
+
+    def __exit__(self, *a):
+        self.close()
+        return False
+
+
 class SimFS:
     def __init__(self, dirs=("/run",)):
         self.files = {}          # path -> Inode
@@ -83,6 +122,15 @@ class SimFS:
             def close(fd):
                 fs._call("close", fd)
                 del fs.fds[fd]
+
+            @staticmethod
+            def fdopen(fd, mode="r", *a, **kw):
+                fs._call("fdopen", fd)
+                return SimFile(fs, fd)
+
+            @staticmethod
+            def fsync(fd):
+                fs._call("fsync", fd)
 
             @staticmethod
             def rename(a, b):
